@@ -324,12 +324,17 @@ def hostile_text(rng):
     """The default mix used by the text-level properties; now and then the
     text gets an unusual first / last character (BOM, NUL, exotic blanks)."""
     kind, text = _hostile_text(rng)
+    return kind, decorate(rng, text)
+
+
+def decorate(rng, text):
+    """Now and then an unusual first / last character."""
     x = rng.random()
     if x < 0.04:
         text = rng.choice(EDGE_CHARS) + text
-    elif x < 0.06:
-        text = text + rng.choice(EDGE_CHARS)
-    return kind, text
+    elif x < 0.07:
+        text = text + rng.choice(['', '\n', ' ']) + rng.choice(EDGE_CHARS)
+    return text
 
 
 def _hostile_text(rng):
